@@ -17,10 +17,15 @@ def cut(x, kind):
     if kind == "persist_nofuse":
         return x.persist(scheduler="sync", fuse=False)
     if kind == "delayed":
-        divs = x.divisions if x.known_divisions else None
-        return dx.from_delayed(x.to_delayed(), meta=x._meta, divisions=divs)
+        # to_delayed() materialises the OPTIMISED plan: its divisions are the consistent pair
+        # (the optimiser may move a filter below a sort, which changes the sampled divisions)
+        o = x.optimize()
+        divs = o.divisions if o.known_divisions else None
+        # verify_meta=False: dtype *flavours* of the declared schema (str vs pyarrow string, int vs
+        # float after missing values) are C07's subject, not this property's
+        return dx.from_delayed(x.to_delayed(), meta=x._meta, divisions=divs, verify_meta=False)
     if kind == "delayed_nodiv":
-        return dx.from_delayed(x.to_delayed(), meta=x._meta)
+        return dx.from_delayed(x.to_delayed(), meta=x._meta, verify_meta=False)
     if kind == "legacy":
         return dx.from_legacy_dataframe(x.to_legacy_dataframe())
     raise ValueError(kind)
@@ -80,7 +85,7 @@ def _evaluate(case):
                 # the re-imported collection itself
                 if walker._names(mid._meta) != walker._names(head._meta):
                     viols.append({"kind": f"cut_changes_schema:{kind}", "detail": f"after {ops[:k]}: {walker._names(mid._meta)} != {walker._names(head._meta)}"})
-                if kind in ("persist", "persist_nofuse", "delayed", "legacy") and head.known_divisions:
+                if kind in ("persist", "persist_nofuse", "legacy") and head.known_divisions:
                     if tuple(map(str, mid.divisions)) != tuple(map(str, head.optimize().divisions)) and tuple(map(str, mid.divisions)) != tuple(map(str, head.divisions)):
                         viols.append({"kind": f"cut_changes_divisions:{kind}", "detail": f"after {ops[:k]}: {mid.divisions} != {head.divisions}"})
                 try:
